@@ -210,6 +210,8 @@ theorem insert_dirtyUp (hasDb : Bool) (s : Store) : ∀ (fuel : Nat) (n : WN) (k
           · split
             · split <;> trivial
             · exact hn
+          · exact hn
+          · exact hn
           · exact hv
       | value vh vv vw vd =>
         simp only [insert]
@@ -218,8 +220,8 @@ theorem insert_dirtyUp (hasDb : Bool) (s : Store) : ∀ (fuel : Nat) (n : WN) (k
         · trivial
       | nil => exact hv
       | empty => exact hv
-      | short k h c d tc => exact hv
-      | routing h ch w d tc => exact hv
+      | short k h c d tc => exact hn
+      | routing h ch w d tc => exact hn
     | cons k ks =>
       cases n with
       | nil => exact hv
@@ -246,12 +248,14 @@ theorem insert_dirtyUp (hasDb : Bool) (s : Store) : ∀ (fuel : Nat) (n : WN) (k
         split
         · exact ih c _ value hcu hv
         · split
-          · split
-            · refine ⟨by simp, ?_⟩
-              exact dirtyUp_upd _ (dirtyUp_upd _ dirtyUp_noCh ((dirtyUp_mkShort _ _).mpr hcu)) ((dirtyUp_mkShort _ _).mpr hv)
-            · refine ⟨by simp, ?_⟩
-              exact dirtyUp_upd _ (dirtyUp_upd _ dirtyUp_noCh ((dirtyUp_mkShort _ _).mpr hcu)) ((dirtyUp_mkShort _ _).mpr hv)
           · exact hcu
+          · split
+            · split
+              · refine ⟨by simp, ?_⟩
+                exact dirtyUp_upd _ (dirtyUp_upd _ dirtyUp_noCh ((dirtyUp_mkShort _ _).mpr hcu)) ((dirtyUp_mkShort _ _).mpr hv)
+              · refine ⟨by simp, ?_⟩
+                exact dirtyUp_upd _ (dirtyUp_upd _ dirtyUp_noCh ((dirtyUp_mkShort _ _).mpr hcu)) ((dirtyUp_mkShort _ _).mpr hv)
+            · exact hcu
 
 /-- 3'. what the parent of a successful `insert` sees: the new child is dirty, except for the same-value rewrite at the
     end of the key, which hands back the old value node (loaded first when the child was a reference) -/
@@ -286,6 +290,8 @@ theorem insert_dirty_or_same (hasDb : Bool) (s : Store) : ∀ (fuel : Nat) (n : 
                 exact ⟨trivial, rfl, rfl, vh, vv, vw, vd, rfl, Or.inr ⟨h, w, rfl, hr⟩⟩
               · left; rw [if_neg hvv]; rfl
             | _ => simp at he
+          | routing _ _ _ _ _ => simp at he
+          | short _ _ _ _ _ => simp at he
           | _ => left; exact hv
       | value vh vv vw vd =>
         simp only [insert] at he ⊢
@@ -300,8 +306,8 @@ theorem insert_dirty_or_same (hasDb : Bool) (s : Store) : ∀ (fuel : Nat) (n : 
         | _ => simp at he
       | nil => left; exact hv
       | empty => left; exact hv
-      | short k h c d tc => left; exact hv
-      | routing h ch w d tc => left; exact hv
+      | short k h c d tc => simp [insert] at he
+      | routing h ch w d tc => simp [insert] at he
     | cons k ks =>
       left
       cases n with
@@ -331,8 +337,10 @@ theorem insert_dirty_or_same (hasDb : Bool) (s : Store) : ∀ (fuel : Nat) (n : 
         split
         · rfl
         · split
-          · split <;> rfl
           · rfl
+          · split
+            · split <;> rfl
+            · rfl
 
 /-- below a non-empty key a successful `insert` always hands back a dirty node -/
 theorem insert_dirty_of_key (hasDb : Bool) (s : Store) (fuel : Nat) (n : WN) (k : Nib) (ks : List Nib) (value : WN)
@@ -690,7 +698,7 @@ theorem commit_allClean (H : Bytes → Bytes) (t : WT) (collapse : Int) (hu : Di
   simp only at hu hp
   by_cases hd : root.dirty = false
   · simp only [commit, hd, Bool.not_false, if_true]
-    exact allClean_of_clean hu hp hd
+    split <;> exact allClean_of_clean hu hp hd
   · have hd' : root.dirty = true := by simpa using hd
     cases root with
     | nil => simp [WN.dirty] at hd'
